@@ -799,6 +799,12 @@ func validateLeaseSet2Inputs(
 	if err := validateOfflineSignatureFlags(flags, offlineSig); err != nil {
 		return err
 	}
+	// Same rule as LeaseSet2.Validate: reserved flag bits 15-3 must be zero.
+	if flags&0xFFF8 != 0 {
+		return oops.
+			Code("reserved_flags_set").
+			Errorf("LeaseSet2 has non-zero reserved flag bits: 0x%04x", flags&0xFFF8)
+	}
 	if err := validateEncryptionKeyInputs(encryptionKeys); err != nil {
 		return err
 	}
@@ -869,6 +875,10 @@ func validateEncryptionKeyInputs(encryptionKeys []EncryptionKey) error {
 				With("declared_len", key.KeyLen).
 				With("actual_len", len(key.KeyData)).
 				Errorf("encryption key %d: declared KeyLen %d does not match actual KeyData length %d", i, key.KeyLen, len(key.KeyData))
+		}
+		// Same rule as LeaseSet2.Validate: a key of a known type has that type's length.
+		if err := validateEncryptionKeyConsistency(i, key); err != nil {
+			return err
 		}
 	}
 	return nil
